@@ -11,6 +11,7 @@ import (
 
 	"github.com/anishathalye/porcupine"
 	"github.com/syndtr/goleveldb/leveldb"
+	"github.com/syndtr/goleveldb/leveldb/iterator"
 	"github.com/syndtr/goleveldb/leveldb/storage"
 	"verif/harness/decode"
 	"verif/simrt"
@@ -317,7 +318,24 @@ func (r *runner) clientConc(ci int, ops []Op) {
 			r.probe("tx")
 			var recs []Rec
 			bad := false
+			// an iterator created part-way through the body must keep showing
+			// what the transaction had written by then, whatever the
+			// transaction writes (and flushes) afterwards: nobody else can
+			// write while the transaction is open
+			var txIt iterator.Iterator
+			own := map[string]Rec{}
+			itAt := -1
+			if op.Keep && len(op.Body) > 1 {
+				itAt = len(op.Body) / 2
+			}
 			for bi := range op.Body {
+				if bi == itAt {
+					txIt = tr.NewIterator(nil, nil)
+					for _, rc := range recs {
+						own[string(rc.Key)] = rc
+					}
+					r.probe("tx-iter-among-writers")
+				}
 				b := &op.Body[bi]
 				var e error
 				switch b.K {
@@ -334,6 +352,31 @@ func (r *runner) clientConc(ci int, ops []Op) {
 					break
 				}
 				recs = append(recs, opRecs(b)...)
+			}
+			if txIt != nil {
+				got := map[string][]byte{}
+				for ok := txIt.First(); ok; ok = txIt.Next() {
+					got[string(txIt.Key())] = append([]byte(nil), txIt.Value()...)
+				}
+				ierr := txIt.Error()
+				txIt.Release()
+				if ierr == nil && !bad {
+					ks := make([]string, 0, len(own))
+					for k := range own {
+						ks = append(ks, k)
+					}
+					sort.Strings(ks)
+					for _, k := range ks {
+						rc := own[k]
+						v, ok := got[k]
+						if rc.Del && ok || !rc.Del && (!ok || !bytes.Equal(v, rc.Val.Bytes())) {
+							r.viol("txiter", "txiter:own-writes", fmt.Sprintf("client %d: an iterator created inside the transaction after it had written %q no longer shows that write once the transaction has written more (found=%v)", ci, k, ok))
+							break
+						}
+					}
+				} else if ierr != nil && !r.faulty {
+					r.viol("txiter", "txiter:error", fmt.Sprintf("client %d: transaction iterator failed: %v", ci, ierr))
+				}
 			}
 			if bad || !op.Commit {
 				tr.Discard()
@@ -1290,9 +1333,16 @@ func genConc(prop string, seed uint64, g *gen, thorough bool) *Case {
 			switch {
 			case isW && r.p(0.06):
 				op := Op{K: "tx", Commit: r.p(0.8)}
-				for j := r.rng(1, 4); j > 0; j-- {
+				n, vmax := r.rng(1, 4), 200
+				if prop == "C05" && r.p(0.4) {
+					// a transaction iterator kept while the body grows past
+					// the write buffer
+					op.Keep = true
+					n, vmax = r.rng(3, 8), 600
+				}
+				for j := n; j > 0; j-- {
 					if r.p(0.8) {
-						op.Body = append(op.Body, Op{K: "put", Key: g.key(), Val: g.val(200)})
+						op.Body = append(op.Body, Op{K: "put", Key: g.key(), Val: g.val(vmax)})
 					} else {
 						op.Body = append(op.Body, Op{K: "del", Key: g.key()})
 					}
